@@ -7,7 +7,7 @@ import ast
 
 from .. import roles
 from ..dataflow import expand_locals
-from ..engine import (Ctx, calls_in, cond_from_entry, cond_in_loop, early_exits, field_writes, formula_of, kwarg, rule,
+from ..engine import (Ctx, calls_in, cond_from_entry, cond_in_loop, early_exits, field_writes, formula_of, kwarg, memo_decorators, rule,
                       same_expr)
 from ..formula import TRUE, equivalent, f_not, implies, show
 from ..model import PKG, AnalysisError, dotted, src, walk_local
@@ -482,3 +482,48 @@ def no_process_global_state(ctx: Ctx):
 
 
 MUTATORS_ALL = {'append', 'extend', 'insert', 'add', 'update', 'setdefault', 'pop', 'popitem', 'remove', 'discard', 'clear', 'appendleft', 'popleft'}
+
+
+@rule('SUPPORT.BACKEND-STATELESS', ['C10', 'C04', 'C05', 'C11', 'C16', 'C01', 'C03'])
+def backend_stateless(ctx: Ctx):
+    """A RunnerBackend is a factory the Lab keeps for its whole life: every build_runner() returns a runner (and through it an
+    executor, queues, result map) constructed in that call from its arguments; the backend itself stores nothing (no attribute
+    of self is written outside __init__, nothing is memoised).  A backend that hands out a kept executor or runner carries the
+    queued work, results and limits of an aborted run into the next run_tasks call."""
+    from .. import roles
+    n = 0
+    for c in ctx.P.subclasses(roles.RUNNER_BACKEND):
+        for m in c.methods.values():
+            if m.is_abstract:
+                continue
+            n += 1
+            ws = [w for w in field_writes(m)] if m.name != '__init__' else []
+            md = memo_decorators(m)
+            ok = not ws and not md
+            yield ctx.ob('SUPPORT.BACKEND-STATELESS', ok, m, ws[0].node if ws else m.node, f'{c.name}.{m.name} keeps nothing on the backend',
+                         '' if ok else (f'`{src(ws[0].node)[:60]}` stores state on the runner backend' if ws else f'{m.name} is memoised ({md})') +
+                         ': the Lab reuses the backend for every run_tasks call, so queued tasks / results / limits of one run leak into the next')
+        br = ctx.P.find_method(c, 'build_runner')
+        if br is None or br.is_abstract:
+            continue
+        rets = [r for r in walk_local(br.node) if isinstance(r, ast.Return) and r.value is not None]
+        g = ctx.cfg(br)
+        rd = ctx.rd(br)
+        okr = bool(rets)
+        for r in rets:
+            from ..dataflow import expand_locals as _xl
+            v = _xl(g, rd, r.value, g.primary(r))
+            fresh = isinstance(v, ast.Call) and any(q in ctx.P.classes for q in ctx.P.resolve_call(v, br, by_name=False))
+            # every keyword / argument comes from build_runner's own parameters (or constants)
+            params = {a.arg for a in br.params}
+            if fresh:
+                for a in list(v.args) + [k.value for k in v.keywords]:
+                    for x in ast.walk(a):
+                        if isinstance(x, ast.Attribute) and isinstance(x.value, ast.Name) and x.value.id == br.self_name:
+                            fresh = False
+            okr = okr and fresh
+        yield ctx.ob('SUPPORT.BACKEND-STATELESS', okr, br, rets[0] if rets else br.node, f'{c.name}.build_runner returns a runner built in this call from its arguments',
+                     '' if okr else f'{c.name}.build_runner does not return a freshly constructed runner fed only by its own arguments (a kept executor / '
+                     'runner / queue is handed out again)', construct=f'{c.name}:fresh-runner')
+    if n == 0:
+        raise AnalysisError('no RunnerBackend implementation found')
